@@ -30,6 +30,14 @@ def ones_complement_checksum(byte_arr: bytearray) -> bytearray:
     return out_arr
 
 
+def same_checksum(calculated_checksum, packet_checksum) -> bool:
+    # 0x0000 and 0xFFFF are the two representations of zero in one's-complement arithmetic;
+    # UDP transmits a computed 0x0000 as 0xFFFF (RFC 768)
+    if calculated_checksum == packet_checksum:
+        return True
+    return calculated_checksum == b'\x00\x00' and packet_checksum == b'\xff\xff'
+
+
 def calculate_checksum_udp(packet: Packet):
     logging.info("")
     logging.info("UDP Checksum")
@@ -65,7 +73,7 @@ def calculate_checksum_udp(packet: Packet):
     packet_checksum = packet.udp.sum.to_bytes(2, 'big')
     logging.info(f"expected checksum: 0x{calculated_checksum.hex()}, packet checksum: 0x{packet_checksum.hex()}")
 
-    return calculated_checksum == packet_checksum
+    return same_checksum(calculated_checksum, packet_checksum)
 
 
 def calculate_checksum_tcp(packet: Packet):
@@ -102,4 +110,4 @@ def calculate_checksum_tcp(packet: Packet):
 
     logging.info(f"expected checksum: 0x{calculated_checksum.hex()}, packet checksum: 0x{packet_checksum.hex()}")
 
-    return calculated_checksum == packet_checksum
+    return same_checksum(calculated_checksum, packet_checksum)
